@@ -307,6 +307,22 @@ def opMarker (j : Json) : Except String Json := do
   let ch := cross.map fun c => jints (Marker.crosshair N xs ys c.1 c.2)
   pure (Json.mkObj [("chern", jints (Marker.chern N xs ys)), ("crosshair", Json.arr ch.toArray)])
 
+
+/-! ### C19: blue noise as a function of the recorded draws -/
+
+def parseIter (j : Json) : Except String (Nat × List (Int × Int)) := do
+  pure (← nat (← field j "pos"), ← listOf pairI (← field j "cands"))
+
+def opBluenoise (j : Json) : Except String Json := do
+  let S ← int (← field j "S")
+  let nx ← nat (← field j "nx"); let ny ← nat (← field j "ny"); let k ← nat (← field j "k")
+  let x0 ← pairI (← field j "x0")
+  let its ← listOf parseIter (← field j "iterations")
+  let r := Points.run S nx ny k x0 its
+  -- smallest margin of any accept/reject decision against the spacing (dist² vs S²) over all candidates: reported so that
+  -- float ties can be excluded
+  pure (Json.mkObj [("samples", jlist jpairI r.samples), ("active", jnats r.active)])
+
 def dispatch (op : String) (j : Json) : Except String Json :=
   match op with
   | "plaquettes" => opPlaquettes j
@@ -321,6 +337,7 @@ def dispatch (op : String) (j : Json) : Except String Json :=
   | "majorana" => opMajorana j
   | "bloch" => opBloch j
   | "marker" => opMarker j
+  | "bluenoise" => opBluenoise j
   | "lateq" => opLatEq j
   | _ => throw "bad-op"
 
